@@ -178,7 +178,7 @@ func c03Formats() []*c03Format {
 		nxTail := ";\nMATRIX\nx AC\ny GT\n;\nEND;\n"
 		nx := &c03Format{Name: "nexus", LB: 4, LT: 4,
 			Entries: []c03Entry{{Entry: "nexus.Parse"}},
-			Bytes:   "[];=#A1 \n\r\x00\xff",
+			Bytes:   "[];=#A10 \n\r\x00\xff",
 			Vocab:   []string{"#NEXUS", "BEGIN", "DATA", "MATRIX", "END", ";", "[", "]", " ", "\n", "x", "1"},
 			Ctxs: []c03Ctx{
 				{},
@@ -194,7 +194,7 @@ func c03Formats() []*c03Format {
 				{Pre: "#NEXUS\nBEGIN DATA;\nMATRIX\n", Vocab: nxMatrix},
 				{Pre: "#NEXUS\nBEGIN DATA;\nMATRIX\n", Post: ";\nEND;\n", Vocab: nxMatrix},
 				{Pre: "#NEXUS\nBEGIN TAXA;\n", Post: "BEGIN DATA;\nMATRIX\nx AC\ny GT\n;\nEND;\n",
-					Vocab: []string{"DIMENSIONS ", "NTAX ", "=", "1 ", "2 ", "-1 ", "TAXLABELS ", "x ", "y ", "z ", ";", "END ", "\n", "["}},
+					Vocab: []string{"DIMENSIONS ", "NTAX ", "=", "0 ", "1 ", "2 ", "-1 ", "TAXLABELS ", "x ", "y ", "z ", ";", "END ", "\n", "["}},
 				{Pre: "#NEXUS\nBEGIN FOO;\n", Vocab: nxTop},
 				{Pre: "#NEXUS\nBEGIN DATA;\nMATRIX\nx AC\n;\nEND;\n", Vocab: nxTop},
 			},
@@ -209,6 +209,8 @@ func c03Formats() []*c03Format {
 				{Name: "lower-case-crlf", Text: "#nexus\r\nbegin data;\r\ndimensions ntax=2 nchar=2;\r\nformat datatype=dna;\r\nmatrix\r\na AC\r\nb GT\r\n;\r\nend;\r\n"},
 				{Name: "dimensions-after-matrix", Text: "#NEXUS\nBEGIN DATA;\nFORMAT DATATYPE=DNA;\nMATRIX\na ACGT\nb AC-T\n;\nDIMENSIONS NTAX=2 NCHAR=4;\nEND;\n"},
 				{Name: "dimensions-after-matrix-contradicting", Text: "#NEXUS\nBEGIN DATA;\nFORMAT DATATYPE=DNA;\nMATRIX\na ACGT\nb AC-T\n;\nDIMENSIONS NTAX=5 NCHAR=10;\nEND;\n"},
+				{Name: "taxa-ntax-zero", Text: "#NEXUS\nBEGIN TAXA;\nDIMENSIONS NTAX=0;\nTAXLABELS a b;\nEND;\nBEGIN DATA;\nDIMENSIONS NCHAR=2;\nFORMAT DATATYPE=DNA;\nMATRIX\na AC\nb GT\n;\nEND;\n"},
+				{Name: "matrix-without-rows", Text: "#NEXUS\nBEGIN CHARACTERS;\nDIMENSIONS NCHAR=4;\nFORMAT DATATYPE=DNA;\nMATRIX\n;\nEND;\n"},
 				{Name: "no-dimensions", Text: "#NEXUS\nBEGIN DATA;\nMATRIX\na AC\nb GT\n;\nEND;\n"},
 				// symbols declared as a multi-byte character and used in the rows: NCHAR counts bytes or characters?
 				{Name: "two-byte-gap-symbol", Text: "#NEXUS\nBEGIN DATA;\nDIMENSIONS NTAX=2 NCHAR=5;\nFORMAT DATATYPE=DNA GAP=\u00e9;\nMATRIX\na AC\u00e9T\nb A\u00e9GT\n;\nEND;\n"},
